@@ -24,13 +24,15 @@ import (
 )
 
 type C05Op struct {
-	Kind    string `json:"k"` // search invalidate enable disable cleanup update loadmon advance stats
-	Entry   int    `json:"e,omitempty"`
-	Q       int    `json:"q,omitempty"`
-	Variant int    `json:"v,omitempty"`
-	O       int    `json:"o,omitempty"`
-	DB      int    `json:"db,omitempty"`
-	Adv     int64  `json:"adv,omitempty"`
+	Kind    string  `json:"k"` // search invalidate enable disable cleanup update loadmon advance stats
+	Entry   int     `json:"e,omitempty"`
+	Q       int     `json:"q,omitempty"`
+	Variant int     `json:"v,omitempty"`
+	O       int     `json:"o,omitempty"`
+	DB      int     `json:"db,omitempty"`
+	Adv     int64   `json:"adv,omitempty"`
+	Word    string  `json:"word,omitempty"` // mutate: the boosted word
+	F       float64 `json:"f,omitempty"`    // mutate: its new factor
 }
 
 type C05Case struct {
@@ -41,6 +43,9 @@ type C05Case struct {
 	TTL      int64    `json:"ttl_ns"`
 	Stock    bool     `json:"stock_constructor"`
 	Ops      []C05Op  `json:"ops"`
+	// LiveOpts: the caller keeps one SearchOptions value per option set for the whole history (the same
+	// ContextBoosts map object is passed again and again) and "mutate" operations change a boost in place
+	LiveOpts bool `json:"caller_reuses_option_values,omitempty"`
 }
 
 var c05Entries = []string{"SearchWithCache", "SearchWithOptionsAndCache", "SearchWithPipelineOptionsAndCache", "SearchWithFuzzyAndCache", "SearchWithMonitoring", "SearchWithOptionsAndMonitoring"}
@@ -83,10 +88,11 @@ func genC05(rt *rapid.T) C05Case {
 		f := rapid.SampledFrom(optFields).Draw(rt, "field")
 		c.Options = append(c.Options, mutateOpt(rt, base, f))
 	}
+	c.LiveOpts = rapid.IntRange(0, 2).Draw(rt, "liveopts") == 0
 	c.Stock = rapid.IntRange(0, 9).Draw(rt, "stock") == 0
 	c.Capacity = rapid.IntRange(1, 6).Draw(rt, "capacity")
 	c.TTL = rapid.SampledFrom([]int64{0, int64(30 * time.Second), int64(5 * time.Minute)}).Draw(rt, "ttl")
-	kinds := swarmKinds(rt, []string{"search", "search", "search", "search", "search", "search", "invalidate", "enable", "disable", "cleanup", "update", "loadmon", "advance", "stats"}, "search")
+	kinds := swarmKinds(rt, []string{"search", "search", "search", "search", "search", "search", "invalidate", "enable", "disable", "cleanup", "update", "loadmon", "advance", "stats", "mutate", "mutate"}, "search")
 	opGen := rapid.Custom(func(rt *rapid.T) C05Op {
 		op := C05Op{Kind: rapid.SampledFrom(kinds).Draw(rt, "kind")}
 		switch op.Kind {
@@ -95,6 +101,10 @@ func genC05(rt *rapid.T) C05Case {
 			op.Q = rapid.IntRange(0, len(c.Queries)-1).Draw(rt, "q")
 			op.Variant = rapid.SampledFrom([]int{0, 0, 0, 1, 2, 3, 4, 5}).Draw(rt, "variant")
 			op.O = rapid.IntRange(0, len(c.Options)-1).Draw(rt, "o")
+		case "mutate":
+			op.O = rapid.IntRange(0, len(c.Options)-1).Draw(rt, "o")
+			op.Word = genWord(rt, "mword")
+			op.F = rapid.SampledFrom([]float64{0.5, 1.5, 2, 3, 1.504}).Draw(rt, "mf")
 		case "update", "loadmon":
 			op.DB = rapid.IntRange(0, len(c.DBs)-1).Draw(rt, "db")
 		case "advance":
@@ -189,6 +199,12 @@ func runC05(c C05Case) *Outcome {
 		mgr := *(**cache.Manager)(p)
 		*mgr.GetSearchCache() = *cache.NewSearchCache(c.Capacity, time.Duration(c.TTL))
 	}
+	// the caller's long-lived option values (LiveOpts mode): opts[i] mirrors live[i] at every moment
+	opts := append([]Opts(nil), c.Options...)
+	live := make([]database.SearchOptions, len(opts))
+	for i := range opts {
+		live[i] = opts[i].toDB()
+	}
 	var reqs []c05Req
 	hits, deltas, replaced, evictions := 0, 0, 0, 0
 	seenOpts := map[string][]Opts{} // normalised query -> option sets used
@@ -197,7 +213,12 @@ func runC05(c C05Case) *Outcome {
 		switch op.Kind {
 		case "search":
 			q := queryVariant(c.Queries[op.Q%len(c.Queries)], op.Variant)
-			opts := c.Options[op.O%len(c.Options)]
+			oi := op.O % len(c.Options)
+			opts := opts[oi]
+			pass := opts.toDB()
+			if c.LiveOpts {
+				pass = live[oi] // the very same value (and map object) as last time
+			}
 			if op.Entry == 0 || op.Entry == 4 {
 				opts = Opts{Limit: opts.Limit}
 			}
@@ -207,15 +228,15 @@ func runC05(c C05Case) *Outcome {
 			case 0:
 				got = mdb.SearchWithCache(q, opts.Limit)
 			case 1:
-				got = mdb.SearchWithOptionsAndCache(q, opts.toDB())
+				got = mdb.SearchWithOptionsAndCache(q, pass)
 			case 2:
-				got = mdb.SearchWithPipelineOptionsAndCache(q, opts.toDB())
+				got = mdb.SearchWithPipelineOptionsAndCache(q, pass)
 			case 3:
-				got = mdb.SearchWithFuzzyAndCache(q, opts.toDB())
+				got = mdb.SearchWithFuzzyAndCache(q, pass)
 			case 4:
 				got = mdb.SearchWithMonitoring(q, opts.Limit)
 			default:
-				got = mdb.SearchWithOptionsAndMonitoring(q, opts.toDB())
+				got = mdb.SearchWithOptionsAndMonitoring(q, pass)
 			}
 			after := mdb.GetCacheStats()["search"]
 			fresh := mdb.Database.SearchUniversal(q, opts.toDB())
@@ -267,6 +288,20 @@ func runC05(c C05Case) *Outcome {
 			} else {
 				beh = append(beh, "M")
 			}
+		case "mutate":
+			oi := op.O % len(c.Options)
+			nb := map[string]float64{}
+			for k, v := range opts[oi].ContextBoosts {
+				nb[k] = v
+			}
+			nb[op.Word] = op.F
+			opts[oi].ContextBoosts = nb
+			if live[oi].ContextBoosts == nil {
+				live[oi].ContextBoosts = map[string]float64{}
+			}
+			live[oi].ContextBoosts[op.Word] = op.F // in place: same map object as in earlier requests
+			log = append(log, fmt.Sprintf("mutate(opts%d,%s=%v)", oi, op.Word, op.F))
+			beh = append(beh, "m")
 		case "invalidate":
 			mdb.InvalidateCache()
 			log = append(log, "invalidate")
